@@ -310,6 +310,7 @@ def r4(ctx) -> None:
                    "OptimizeResult.x (optimiser space) reaches the parameters only through set_from_label_and_value_arrays")
     sf = ctx.fn(PS, "Parameters.set_from_label_and_value_arrays")
     cs = lib.method_calls(sf, "set_value_from_optimization")
+    ctx.sites('C11-R4', "sites iterated at rules/c11.py:313 (cs)", len(cs), 1)
     for c in cs:
         t = lib.flow(sf, repo).term(c.args[0], lib.stmt_of(c))
         a = t.single_atom()
@@ -354,6 +355,7 @@ def history_pair(ctx, rule: str = "C11-R4") -> None:
                "get_label_value_and_bounds_arrays()), because set_from_history feeds them back through "
                "set_from_label_and_value_arrays, which applies the inverse transform", [f"record term: {t!r}"])
     lab_st = [s for t_, s in lib.attr_stores(ap, "self._parameter_labels")]
+    ctx.sites(rule, "sites iterated at rules/c11.py:357 (lab_st)", len(lab_st), 1)
     for s_ in lab_st:
         t = fla.term(s_.value, s_)
         ctx.ob(rule, "ParameterHistory.append/labels-of-same-export", from_export(t, 0), ap, s_,
